@@ -826,42 +826,44 @@ func ruleR51(c *Ctx) {
 		if rt := m.Pkg.Scope().Lookup(u.Recv); rt == nil || !c.isNodeRefType(rt.Type()) {
 			continue
 		}
-		sws := c.kindSwitches(u)
-		if len(sws) != 1 {
+		// the operation exists on the node layouts: at least three size classes have a method of
+		// this name
+		have := 0
+		for _, k := range m.Kinds {
+			if m.ByName[k.Struct.Obj().Name()+"."+u.Decl.Name.Name] != nil {
+				have++
+			}
+		}
+		if have < 3 {
 			continue
 		}
-		// arms that delegate to the like-named method of a node layout
+		// calls of the like-named method on something that is not the reference itself (a typed view
+		// under a kind switch, or an interface value the layouts implement)
 		var calls []*ast.CallExpr
-		arms := 0
-		for _, cl := range sws[0].Body.List {
-			cc := cl.(*ast.CaseClause)
-			if cc.List == nil {
-				continue
+		ast.Inspect(u.Body, func(x ast.Node) bool {
+			call, ok := x.(*ast.CallExpr)
+			if !ok {
+				return true
 			}
-			found := false
-			for _, st := range cc.Body {
-				ast.Inspect(st, func(x ast.Node) bool {
-					call, ok := x.(*ast.CallExpr)
-					if !ok {
-						return true
-					}
-					sel, ok := ast.Unparen(call.Fun).(*ast.SelectorExpr)
-					if !ok || sel.Sel.Name != u.Decl.Name.Name {
-						return true
-					}
-					if nt := namedOf(info.TypeOf(sel.X)); nt != nil && m.kindByStruct(nt) != nil {
-						calls = append(calls, call)
-						found = true
-					}
-					return true
-				})
+			sel, ok := ast.Unparen(call.Fun).(*ast.SelectorExpr)
+			if !ok || sel.Sel.Name != u.Decl.Name.Name {
+				return true
 			}
-			if found {
-				arms++
+			rt := info.TypeOf(sel.X)
+			if rt == nil {
+				return true
 			}
-		}
-		if arms < 3 {
-			continue // not a pure dispatcher (findChild answers inline)
+			if pt, ok := rt.(*types.Pointer); ok {
+				rt = pt.Elem()
+			}
+			if c.isNodeRefType(rt) {
+				return true
+			}
+			calls = append(calls, call)
+			return true
+		})
+		if len(calls) == 0 {
+			continue // answers inline (findChild)
 		}
 		n++
 		key := fmt.Sprintf("%s hands every call on to the node layout", u.Name)
